@@ -19,7 +19,7 @@ EXPLANATION = (
     "radii below the table minimum; (AXIS) the table is interpolated along its aperture axis with scipy's defaults (linear, exact at knots, error outside - no kind=, "
     "fill_value=, bounds_error=False); flux from flux and error from error; (UNIT-1) abscissa and query reach scipy as numbers in the same unit, and no comparison mixes a "
     "bare number with a dimensional quantity; model names and central wavelength are copied unchanged; the single-aperture branch repeats the only column with one row per model.")
-NOT_DECIDED = ["linearity and knot-exactness of scipy.interpolate.interp1d (library)", "the edge extrapolation and .diagonal() step of interpolate_variable"]
+NOT_DECIDED = ["linearity and knot-exactness of scipy.interpolate.interp1d (library)"]
 ASSUMPTIONS = ["interp1d(x, y)(q) with default options is the piecewise-linear interpolant, raising outside [x0, xN]", "numpy basic slices are views"]
 TRUSTED = ["python ast", "sedlint E4/E5", "scipy interp1d defaults"]
 MIN = {'CFG-7': 8, 'UNIT-1': 3, 'AXIS': 3, 'PERM-10': 1}
@@ -249,6 +249,26 @@ def check_variable(ctx):
     ctx.expect(kfound is not None and 0.99 <= kfound[0] <= 1.0, 'CFG-7', 'interpolate_variable clamp', loc(fv, kfound[1].lineno if kfound else None),
                'radii above the table maximum are set to k*max with k = %s' % (kfound[0] if kfound else None), 'no clamp to (a fraction k in [0.99, 1] of) the table maximum', 'variable-clamp')
     ctx.extra['clamp_constant_interpolate_variable'] = kfound[0] if kfound else None
+    # the whole result: at SED wavelength n the flux table is interpolated linearly (over apertures) at the aperture the log-log aperture(wavelength)
+    # curve gives for that wavelength - the curve held constant beyond the first / last filter wavelength - i.e. the diagonal of the (wavelength x query) product
+    from ..interp import _linear_fn
+    from ..alg import C
+    kq = Fraction(repr(kfound[0])) if kfound else Fraction(1)
+    qc_ = qv + lt(mxn, qv) * (kq * mxn - qv)
+    xs_, ys_ = alg.log10(gathered(fw)), alg.log10(gathered(qc_))
+    lw = alg.log10(sym('wav', N) / sym('unit:micron'))
+    val = lambda p_: mk_fn('value', P(p_))
+    curve = _linear_fn('lininterp', val(lw), 'w', val(xs_), ys_, [C('bounds_error=False'), C('fill_value=Marker(numpy.nan)')])
+    first = lambda p_: mk_fn('at', B('w', p_), P(Poly()))
+    last = lambda p_: mk_fn('at', B('w', p_), P(Poly.const(-1)))
+    ap1 = mk_fn('exp10', P(curve))
+    ap2 = ap1 + lt(lw, first(xs_)) * (mk_fn('exp10', P(first(ys_))) - ap1)
+    ap3 = ap2 + lt(last(xs_), lw) * (mk_fn('exp10', P(last(ys_))) - ap2)
+    ref_v = _linear_fn('lininterp', ap3, A, capn, sym('flux', A, N) / mJy, [])
+    sorted_fact = alg.Facts().assume_le(first(xs_), last(xs_))        # the abscissa is sorted: first <= last, so the two edge masks are disjoint
+    compare(ctx, 'CFG-7', 'interpolate_variable result', loc(fv), outv, ref_v, (N,), sorted_fact, vocab=VOCAB | {'fw', 'wav'}, fns=FNS | {'value', 'exp10'},
+            findings=[f for f in I.findings if f.kind == 'label-clash'],
+            detail_ok='flux[:, n] interpolated linearly at the aperture of the log-log aperture(wavelength) curve at wavelength n (curve held constant beyond the end filters): the diagonal pairing')
     ctx.expect(any('min()' in g[2] for g in guards(I, '<')), 'CFG-7', 'interpolate_variable refuses radii below the table', loc(fv), 'raises when any request < table minimum',
                'no raise guards radii below the smallest aperture', 'too-small')
     unit_findings(ctx, I, fv, 'interpolate_variable comparisons')
@@ -257,6 +277,10 @@ def check_variable(ctx):
 CF = 'sedfitter/convolved_fluxes/convolved_fluxes.py'
 SE = 'sedfitter/sed/sed.py'
 MUST_FIRE = [
+    ('variable aperture: short-wavelength side held at the last filter aperture', [(SE, "apertures[np.log10(sed_wav) < log10_ap_interp.x[0]] = 10. ** log10_ap_interp.y[0]", "apertures[np.log10(sed_wav) < log10_ap_interp.x[0]] = 10. ** log10_ap_interp.y[-1]")]),
+    ('variable aperture: long-wavelength side not held', [(SE, "        apertures[np.log10(sed_wav) > log10_ap_interp.x[-1]] = 10. ** log10_ap_interp.y[-1]\n", "")]),
+    ('variable aperture: first query column instead of the diagonal', [(SE, "return flux_interp(apertures).diagonal()", "return flux_interp(apertures)[:, 0]")]),
+    ('variable aperture: curve interpolated in linear wavelength', [(SE, "apertures = 10. ** log10_ap_interp(np.log10(sed_wav))", "apertures = 10. ** log10_ap_interp(sed_wav)")]),
     ('range check applied to single-aperture tables too', [(CF, "        if self.n_ap > 1:\n\n            # If any apertures are larger than the defined max, reset to max\n            if np.any(c.apertures > self.apertures.max()):\n                apertures[c.apertures > self.apertures.max()] = self.apertures.max()\n\n            # If any apertures are smaller than the defined min, raise error\n            if np.any(c.apertures < self.apertures.min()):\n                raise Exception(\"Aperture(s) requested too small\")\n",
                                                                "        if np.any(c.apertures < self.apertures.min()):\n            raise Exception(\"Aperture(s) requested too small\")\n\n        if self.n_ap > 1:\n\n            # If any apertures are larger than the defined max, reset to max\n            if np.any(c.apertures > self.apertures.max()):\n                apertures[c.apertures > self.apertures.max()] = self.apertures.max()\n")]),
     ('single-aperture repeat reshaped the other way round', [(CF, "c.flux = np.repeat(self.flux, len(c.apertures)).reshape(c.n_models, len(c.apertures))", "c.flux = np.repeat(self.flux, len(c.apertures)).reshape(len(c.apertures), c.n_models).T")]),
@@ -283,6 +307,8 @@ MUST_FIRE = [
                                                "        if np.any(apertures < sed_apertures.min()):\n            raise Exception(\"Aperture(s) requested too small\")\n\n        result = flux_interp(apertures)\n        apertures[apertures > sed_apertures.max()] = sed_apertures.max()\n        return result")]),
 ]
 MUST_SILENT = [
+    ('variable aperture: log wavelength in a temporary', [(SE, "        apertures = 10. ** log10_ap_interp(np.log10(sed_wav))\n\n        # Extrapolate on either side\n        apertures[np.log10(sed_wav) < log10_ap_interp.x[0]] = 10. ** log10_ap_interp.y[0]\n        apertures[np.log10(sed_wav) > log10_ap_interp.x[-1]] = 10. ** log10_ap_interp.y[-1]",
+                                                              "        log_wav = np.log10(sed_wav)\n        apertures = 10. ** log10_ap_interp(log_wav)\n\n        # Extrapolate on either side\n        apertures[log_wav > log10_ap_interp.x[-1]] = 10. ** log10_ap_interp.y[-1]\n        apertures[log_wav < log10_ap_interp.x[0]] = 10. ** log10_ap_interp.y[0]")]),
     ('single-aperture repeat with the request length in a temporary', [(CF, "            c.flux = np.repeat(self.flux, len(c.apertures)).reshape(c.n_models, len(c.apertures))\n            c.error = np.repeat(self.error, len(c.apertures)).reshape(c.n_models, len(c.apertures))",
                                                                           "            n_new = len(c.apertures)\n            c.flux = np.repeat(self.flux, n_new).reshape(self.n_models, n_new)\n            c.error = np.repeat(self.error, n_new).reshape(self.n_models, n_new)")]),
     ('clamp through np.minimum-free rewrite: mask variable', [(CF, "                apertures[c.apertures > self.apertures.max()] = self.apertures.max()", "                too_big = c.apertures > self.apertures.max()\n                apertures[too_big] = self.apertures.max()")]),
